@@ -88,7 +88,8 @@ func C23(c *core.Ctx) {
 		"copies of the directory, at the end and after re-open no file may contain a needle (compression off); (iii) a hook logs (data key id, IV) for every encrypted log record " +
 		"and table block/index: no pair may repeat, also across re-opens; (iv) re-opening with a different key, with no key, or a plain database with a key fails with " +
 		"ErrEncryptionKeyMismatch and leaves the file tree hash unchanged; (v) data written under earlier data keys stays readable after re-open, and after master-key rotation " +
-		"with the built 'badger rotate' command the new key opens the database and the old one is refused; distinct = (key length, rotation interval, sub-check) classes")
+		"with the built 'badger rotate' command the new key opens the database and the old one is refused; (vi) crash images: an encrypted workload child (E2 engine) is SIGKILLed at " +
+		"random hook events and the directory is scanned for the needles of every value whose transaction had been issued, before anything re-opens it; distinct = (key length, rotation interval, sub-check) classes")
 	work := c.WorkDir()
 	defer os.RemoveAll(work)
 	var mu sync.Mutex
@@ -265,6 +266,7 @@ func C23(c *core.Ctx) {
 	if nIV == 0 {
 		c.Inconclusive("no IV events observed")
 	}
+	c23CrashScan(c, work)
 	c.Assume("needles are 12-byte windows of PRF output / random key bytes, so a chance match is negligible; compression is off so plaintext would appear verbatim")
 }
 
@@ -307,4 +309,51 @@ func c23Rotate(c *core.Ctx, work, dir string, opt badger.Options, m *model.DB, o
 	w.CheckInvariance("rotate")
 	_ = db.Close()
 	c.Distinct("master-key-rotation")
+}
+
+// c23CrashScan: what a kill leaves on disk must not contain plaintext either (WAL tails, value-log
+// tails, half-built tables, MANIFEST-REWRITE ...).
+func c23CrashScan(c *core.Ctx, work string) {
+	cfgs := []crashConfig{{"aes128+gc", 3, "gc", false, 4, 60}, {"aes256+snappy-off", 5, "deletes", false, 4, 60}, {"aes192", 9, "plain", false, 4, 60}}
+	r := c.Rand("c23-crash")
+	for i := 0; i < c.Pick(8, 60); i++ {
+		cfg := cfgs[i%len(cfgs)]
+		s, specPath := newCrashSpec(c, work, cfg, i, fmt.Sprintf("encrash%d", i))
+		s.KillAt = int64(100 + r.Intn(2500))
+		opt := s.options()
+		if len(opt.EncryptionKey) == 0 {
+			os.RemoveAll(filepath.Dir(specPath))
+			continue
+		}
+		// compression would hide plaintext from a byte scan
+		writeSpec(s, specPath)
+		out, timedOut, _ := runChild(90*time.Second, nil, c.ID, "--child-crash", specPath)
+		if timedOut {
+			c.Inconclusive("encrypted workload child timed out: " + tailStr(out, 200))
+			os.RemoveAll(filepath.Dir(specPath))
+			continue
+		}
+		si := parseSideLog(s.SideLog)
+		needles := needleSet{}
+		keys := crashKeys(s.Seed)
+		for id := range si.issued {
+			var cl, sq int
+			fmt.Sscanf(id, "%d %d", &cl, &sq)
+			for _, o := range crashTxn(s, keys, cl, sq) {
+				if !o.Del {
+					needles.addValue(gen.Expand(o.Tok, o.Size), "value "+o.Tok)
+				}
+			}
+		}
+		hits, nb := scanDir(s.Dir, needles)
+		c.Eval(1)
+		c.Count("enc.crash_images_scanned", 1)
+		c.Count("enc.crash_bytes_scanned", nb)
+		c.Count("enc.crash_needles", int64(len(needles)))
+		if len(hits) > 0 {
+			c.Violation("C23|crash-image|plaintext-on-disk", fmt.Sprintf("after a kill at %s the directory contains plaintext of written values: %v", si.killed, hits), map[string]any{"config": cfg.name, "killed_at": si.killed, "files": listDir(s.Dir)})
+		}
+		c.Distinct("crash-image|" + cfg.name + "|" + si.killed)
+		os.RemoveAll(filepath.Dir(specPath))
+	}
 }
